@@ -212,7 +212,7 @@ func genWeb(rng *rand.Rand) []spec {
 			}
 		}
 	}
-	n := run.N(200, 3000)
+	n := run.N(400, 10000)
 	for i := 0; i < n; i++ {
 		w := pick(rng, webAPIs)
 		r := pick(rng, webRoutes(w.Kind))
